@@ -195,12 +195,13 @@ pub fn layout(spec: &mut ElfSpec, r: &mut Rng) -> Built {
         let mut w = W { v: &mut eh, little, fields: &mut fields, base: 0 };
         w.f("e_type", spec.e_type, 2);
         w.f("e_machine", spec.e_machine, 2);
-        w.f("e_version", 1, 4);
-        w.f("e_entry", 0x1000, a);
+        // (more fields no property mentions: the header's own version word, the entry point, e_ehsize)
+        w.f("e_version", if spec.e_flags % 5 == 1 { *r.pick(&[0u64, 2, 0xffff_ffff]) } else { 1 }, 4);
+        w.f("e_entry", if spec.e_flags % 3 == 1 { r.edge64() } else { 0x1000 }, a);
         w.f("e_phoff", phoff as u64, a);
         w.f("e_shoff", shoff as u64, a);
         w.f("e_flags", spec.e_flags, 4);
-        w.f("e_ehsize", ehsize(class) as u64, 2);
+        w.f("e_ehsize", if spec.e_flags % 7 == 1 { *r.pick(&[0u64, 1, 52, 64, 65, 0xffff]) } else { ehsize(class) as u64 }, 2);
         w.f("e_phentsize", if spec.have_phdrs { phentsize(class) as u64 } else { 0 }, 2);
         let phnum = if !spec.have_phdrs { 0 } else if spec.ext_phnum { 0xffff } else { nseg as u64 };
         w.f("e_phnum", phnum, 2);
@@ -429,6 +430,8 @@ pub fn random_elf(r: &mut Rng, rich: bool) -> (ElfSpec, Built) {
     if r.chance(1, 3) { sp.secs.push(sec(b".tex", SHT_PROGBITS, r.bytes(2))); }
     if r.chance(1, 3) { sp.secs.push(sec(b".text", SHT_PROGBITS, r.bytes(5))); }
     if r.chance(1, 4) { sp.secs.push(sec(&[b'.', 0xff, 0xfe], SHT_PROGBITS, r.bytes(2))); }
+    // load addresses and sh_info are whatever they are
+    for s in sp.secs.iter_mut().skip(1) { if r.chance(1, 3) { s.addr = r.edge64(); } if s.ty == SHT_PROGBITS && r.chance(1, 4) { s.info = r.next() as u32; } }
     // a symbol table whose sh_link is 0 names shdr[0] as its string table (whatever range that header designates)
     if link_to_null { for s in sp.secs.iter_mut() { if s.ty == SHT_SYMTAB || s.ty == SHT_DYNSYM { s.link = 0; } } }
     // section name string table, at a random position among the sections
